@@ -41,7 +41,7 @@ verif_harness! {
     }
 }
 
-//@ harness name=des_leaf_gen_keys prop=C05,C20 tier=quick bits=64 est=120 desc="L: utils::gen_keys(key) == FIPS 46-3 key schedule (PC1, 28-bit rotations by SHIFTS, PC2) for all 2^64 keys; multiply-and-mask PC2 carries its no-overflow obligations"
+//@ harness name=des_leaf_gen_keys prop=C05,C20 tier=quick bits=64 est=120 mem=30 desc="L: utils::gen_keys(key) == FIPS 46-3 key schedule (PC1, 28-bit rotations by SHIFTS, PC2) for all 2^64 keys; multiply-and-mask PC2 carries its no-overflow obligations"
 verif_harness! {
     name: des_leaf_gen_keys,
     bytes: 8,
@@ -89,7 +89,7 @@ fn conc_f(r: u64, k: u64) -> u64 {
     // concrete meaning of the stubbed utils::f in the crate's layout: R left-aligned, K left-aligned (<<16), result left-aligned
     (rd::f((r >> 32) as u32, k >> 16) as u64) << 32
 }
-uf2!(uf_f, u64, u64, u64, [B0], conc_f);
+cuf2!(uf_f, vuf_c05_uf_f, u64, u64, u64, conc_f);
 pub fn stub_f(input: u64, key: u64) -> u64 {
     // the real f only depends on the top 32 bits of `input`; the abstraction keeps that (otherwise the oracle,
     // which passes a clean R, could not share the function)
@@ -185,8 +185,8 @@ fn conc_e(k: u64, x: u64) -> u64 {
 fn conc_d(k: u64, x: u64) -> u64 {
     rd::decrypt(k, x)
 }
-uf2!(uf_e, u64, u64, u64, [B0], conc_e);
-uf2!(uf_d, u64, u64, u64, [B0], conc_d);
+cuf2!(uf_e, vuf_c05_uf_e, u64, u64, u64, conc_e);
+cuf2!(uf_d, vuf_c05_uf_d, u64, u64, u64, conc_d);
 pub fn stub_des_encrypt(d: &Des, data: u64) -> u64 {
     uf_e::call(d.keys[0], data)
 }
@@ -342,6 +342,16 @@ macro_rules! tdes_roundtrip {
                 // the fields of the TDES structs are private to crate::tdes; an arbitrary state is built in place from
                 // symbolic bytes (every byte pattern is a valid state: two or three arrays of sixteen u64 subkeys)
                 vassume!(core::mem::size_of::<$ty>() == $n * 128);
+                // canonical subkeys: the 16 low bits of every subkey word are zero, as in every state a constructor
+                // produces (gen_keys); the real rounds ignore those bits, so without this a solver counterexample that
+                // separates two subkey arrays only in ignored bits would not reproduce natively
+                let mut w = 0;
+                let mut canon = true;
+                while w < $n * 16 {
+                    canon &= (inp[8 * w] | inp[8 * w + 1]) == 0;
+                    w += 1;
+                }
+                vassume!(canon);
                 let mut slot = core::mem::MaybeUninit::<$ty>::uninit();
                 generic::fill(&mut slot, &inp[..$n * 128]);
                 let c = generic::as_ref(&slot);
@@ -358,11 +368,11 @@ macro_rules! tdes_roundtrip {
         }
     };
 }
-uf2!(uf_f96, u64, u64, u64, [B0 B1 B2 B3], conc_f);
+cuf2!(uf_f96, vuf_c05_uf_f96, u64, u64, u64, conc_f);
 pub fn stub_f96(input: u64, key: u64) -> u64 {
     uf_f96::call(input & 0xFFFF_FFFF_0000_0000, key) & 0xFFFF_FFFF_0000_0000
 }
-//@ harness name=tdes_ede3_roundtrip prop=C01 tier=quick bits=3136 stub=1 est=30 desc="W: TdesEde3 dec(enc(b)) == b and enc(dec(b)) == b on an arbitrary state (three arbitrary subkey arrays), all blocks; single DES an uninterpreted keyed bijection pair (justified by des_state_roundtrip)"
+//@ harness name=tdes_ede3_roundtrip prop=C01 tier=quick bits=3136 stub=1 est=30 desc="W: TdesEde3 dec(enc(b)) == b and enc(dec(b)) == b on an arbitrary state (three arbitrary canonical subkey arrays: the 16 ignored low bits zero), all blocks; single DES an uninterpreted keyed bijection pair (justified by des_state_roundtrip)"
 tdes_roundtrip!(tdes_ede3_roundtrip, TdesEde3 { d1, d2, d3 }, 3);
 //@ harness name=tdes_eee3_roundtrip prop=C01 tier=quick bits=3136 stub=1 est=30 desc="W: TdesEee3 round trip both orders on an arbitrary state; single DES an uninterpreted keyed bijection pair"
 tdes_roundtrip!(tdes_eee3_roundtrip, TdesEee3 { d1, d2, d3 }, 3);
@@ -373,12 +383,12 @@ tdes_roundtrip!(tdes_eee2_roundtrip, TdesEee2 { d1, d2 }, 2);
 
 // ---------------------------------------------------------------- key relations (real code on both sides)
 
-//@ harness name=tdes_ede3_equal_parts_is_des prop=C05 tier=quick bits=128 stub=1 est=60 desc="TdesEde3 with all three parts equal computes single Des with that key (both directions), all keys and blocks; f uninterpreted on both sides"
+//@ harness name=tdes_ede3_equal_parts_is_des prop=C05 tier=quick bits=128 stub=1 est=60 desc="TdesEde3 with all three parts equal computes single Des with that key (both directions), all keys and blocks; real key schedules; single DES on a subkey array an uninterpreted keyed bijection pair on both sides (justified by des_state_roundtrip)"
 verif_harness! {
     name: tdes_ede3_equal_parts_is_des,
     bytes: 16,
     unwind: 140,
-    stubs: [(crate::utils::f, stub_f96)],
+    stubs: [(crate::des::Des::encrypt, stub_des_enc_bij), (crate::des::Des::decrypt, stub_des_dec_bij)],
     prop: |inp| {
         let k: [u8; 8] = take(inp, 0);
         let blk: [u8; 8] = take(inp, 8);
